@@ -357,7 +357,7 @@ def r4_jobs_clean(chk: Check):
     g = CFG(f.node)
     rd = ReachingDefs(g)
     loc = chk.loc(f.module, f.node)
-    loops = [n for n in g.live if n.kind == "for" and src(n.ast.iter) == "path.glob('jobs/*/*')"]
+    loops = [n for n in g.live if n.kind == "for" and rd.canon(n.ast.iter, n) in ("path.glob('jobs/*/*')", "workspace.path.glob('jobs/*/*')")]
     if len(loops) != 1:
         raise Undecided("cli.jobs.process: job loop not found")
     lp = loops[0]
